@@ -195,6 +195,41 @@ let () = main_loop (fun toks ->
             Printf.sprintf "ok ptr=%d eof=%d v=%s eq=%s eqd=%s" (int_of_n p) (if is_eof a p then 1 else 0) (pr t v2)
               (string_of_bool eq) (string_of_bool (eq && is_eof a p)) in
       "rt A=" ^ hex_of_bytes a ^ " " ^ r ^ " " ^ jlog_text ()
+  | ["rd"; _; spec; vt; _; jt] ->
+      let jp = make_json_parse jt in
+      let t = parse_spec spec in
+      let v = parse_value vt in
+      let a = enc t v in
+      let r =
+        match load jp t a N0 with
+        | Err e -> err_name e
+        | Ok (v2, p) ->
+            let eq = value_eqb v v2 in
+            Printf.sprintf "ok ptr=%d eof=%d v=%s eq=%s eqd=%s" (int_of_n p) (if is_eof a p then 1 else 0) (pr t v2)
+              (string_of_bool eq) (string_of_bool (eq && is_eof a p)) in
+      "rd A=" ^ hex_of_bytes a ^ " " ^ r ^ " " ^ jlog_text ()
+  | "sq" :: rest when List.length rest >= 4 && List.length rest mod 3 = 1 ->
+      (* several objects saved one after another into one archive, then loaded one after another *)
+      let rec split3 = function
+        | [jt] -> ([], jt)
+        | _ :: spec :: vt :: r -> let (l, jt) = split3 r in ((spec, vt) :: l, jt)
+        | _ -> failwith "sq" in
+      let (items, jt) = split3 rest in
+      let jp = make_json_parse jt in
+      let a = List.concat (List.map (fun (spec, vt) -> enc (ty_of_sp (parse_sp spec)) (parse_value vt)) items) in
+      let rec go items p acc =
+        match items with
+        | [] -> List.rev acc
+        | (spec, vt) :: r ->
+            let t = parse_spec spec in
+            let v = parse_value vt in
+            (match load jp t a p with
+             | Err e -> List.rev (err_name e :: acc)
+             | Ok (v2, p2) ->
+                 let line = Printf.sprintf "ok ptr=%d eof=%d eq=%d v=%s" (int_of_n p2) (if is_eof a p2 then 1 else 0)
+                              (if value_eqb v v2 then 1 else 0) (pr t v2) in
+                 go r p2 (line :: acc)) in
+      "sq A=" ^ hex_of_bytes a ^ " | " ^ String.concat " | " (go items N0 []) ^ " | " ^ jlog_text ()
   | ["sc"; _; spec; vt; jt] ->
       (* store_data/fetch_data of session_interface and cache_interface: save, keep the bytes, load *)
       let jp = make_json_parse jt in
